@@ -135,6 +135,19 @@ def replay_source(data):
 def replay_row(data):
     from chmpy.interpolate.density import PromoleculeDensity
     from chmpy.interpolate import _density as cd
+    if data.get("Zs"):
+        # several atoms in the caller's order: atom i must be evaluated with the table row of ITS element, at ITS position
+        rng = np.random.default_rng(1)
+        for zs in [list(data["Zs"]), [8, 1, 1], [17, 11], [7, 6, 1], [1, 8, 1]]:
+            zs = np.array(zs)
+            pos = rng.normal(size=(len(zs), 3)) * 1.5
+            d = PromoleculeDensity((zs, pos))
+            for i, z in enumerate(zs):
+                if not np.array_equal(np.asarray(d.rho_data[i]), cd._RHO[z - 1]):
+                    return True, "atoms %s: atom %d (Z=%d) is bound to a table row that is not row %d" % (zs.tolist(), i, z, z - 1)
+            if not np.allclose(np.asarray(d.positions, float), pos, atol=1e-6):
+                return True, "atoms %s: positions reordered" % zs.tolist()
+        return False, "rows follow the atoms for every list tried"
     z = int(data["Z"])
     try:
         d = PromoleculeDensity((np.array([z]), np.array([[0.0, 0.0, 0.0]])))
@@ -333,13 +346,16 @@ def part_rows(ctx):
     Z = Sym(z3.Int("Z"))
     ex = Explorer(max_paths=400, int_fork_bound=400)
 
+    OTHERS = [8, 1]                 # further atoms after the symbolic one, deliberately not in ascending order of Z
+
     def build():
         del captured[:]
-        md.PromoleculeDensity((np.array([Z], dtype=object), np.array([[0.0, 0.0, 0.0]])))
+        md.PromoleculeDensity((np.array([Z] + OTHERS, dtype=object), np.array([[0.0, 0.0, 0.0], [1.0, 0.5, 0.25], [-0.75, 0.25, 1.5]])))
         return captured[0]
     paths = ex.run(build)
     ctx.add_paths(ex)
     badz = None
+    badorder = False
     rows = 0
     for p in paths:
         s = z3.Solver()
@@ -353,9 +369,13 @@ def part_rows(ctx):
                 badz = r.model.eval(Z.t, model_completion=True).as_long() if r.verdict == "cex" else zv
         else:
             rows += 1
-            if not (1 <= zv <= 103) or not np.array_equal(np.asarray(p.value[0], dtype=np.float32), realpy._RHO[zv - 1]):
+            rowsv = np.asarray(p.value, dtype=np.float32)
+            if not (1 <= zv <= 103) or rowsv.shape[0] != 1 + len(OTHERS) or not np.array_equal(rowsv[0], realpy._RHO[zv - 1]):
                 badz = zv
-    ctx.record("rows: %d atomic numbers bound to table row Z-1, all other integers rejected" % rows, "holds" if badz is None and rows == 103 else "counterexample", nontrivial=True)
+            elif any(not np.array_equal(rowsv[1 + k], realpy._RHO[o - 1]) for k, o in enumerate(OTHERS)):
+                badz = zv
+                badorder = True
+    ctx.record("rows: %d atomic numbers (symbolic first atom, followed by O and H) each bound to table row Z-1 in the caller's order, all other integers rejected" % rows, "holds" if badz is None and rows == 103 else "counterexample", nontrivial=True)
     # table rows are in atomic-number order: electron count of the tabulated range increases strictly with the row (ground fact about the file)
     dom, rho = realpy._DOMAIN.astype(float), realpy._RHO.astype(float)
     r = np.sqrt(dom)
@@ -364,7 +384,10 @@ def part_rows(ctx):
     ctx.record("table file: integrated electron count increases strictly with the row index, rows 0,1 integrate to 1,2 (ground)", "holds" if mono else "counterexample",
                nontrivial=True, method="ground instances")
     if badz is not None or rows != 103:
-        ctx.violation("row:binding", "atom with atomic number %s is not bound to table row Z-1 / not rejected" % badz, {"Z": badz if badz is not None else 1}, replay_row)
+        if badorder or (badz is not None and 1 <= badz <= 103):
+            ctx.violation("row:binding", "atoms [%s, 8, 1]: the table rows handed to the kernel do not follow the atoms in the caller's order" % badz, {"Zs": [int(badz), 8, 1]}, replay_row)
+        else:
+            ctx.violation("row:binding", "atom with atomic number %s is not bound to table row Z-1 / not rejected" % badz, {"Z": badz if badz is not None else 1}, replay_row)
 
 
 def part_wrappers(ctx):
